@@ -50,45 +50,62 @@ Definition complete_req (t : tabs) (sv : server) (rq : request) : bool :=
        && forallb (complete_path t rq) (ru_paths r)) (sv_rules sv).
 
 (** *** observables *)
-Definition obs := (Z * string * string * bool)%type.   (* status, handler invoked, path seen, panic *)
+Definition obs := (Z * string * string * bool * Z)%type.
+  (* status, handler invoked, path seen, panic, identity (generation) of the handler invoked (0 = none) *)
 
-Definition obs_of (o : outcome) : obs :=
+Definition obs_of (m : mapper) (o : outcome) : obs :=
   match o with
-  | Dispatched b p => (200%Z, b, p, false)
-  | Failed c => (c, "", "", false)
-  | Panicked => (0%Z, "", "", true)
+  | Dispatched b p => (200%Z, b, p, false, match alookup b m with Some g => Z.of_N g | None => 0%Z end)
+  | Failed c => (c, "", "", false, 0%Z)
+  | Panicked => (0%Z, "", "", true, 0%Z)
   end.
 
 Definition obs_eqb (a b : obs) : bool :=
-  let '(s1, b1, p1, x1) := a in let '(s2, b2, p2, x2) := b in
-  Z.eqb s1 s2 && String.eqb b1 b2 && String.eqb p1 p2 && Bool.eqb x1 x2.
+  let '(s1, b1, p1, x1, g1) := a in let '(s2, b2, p2, x2, g2) := b in
+  Z.eqb s1 s2 && String.eqb b1 b2 && String.eqb p1 p2 && Bool.eqb x1 x2 && Z.eqb g1 g2.
 
 Definition bN (b : bool) (n : N) : N := if b then n else 0%N.
 
-Definition status_of (o : obs) : Z := fst (fst (fst o)).
+Definition status_of (o : obs) : Z := fst (fst (fst (fst o))).
 Definition has_status (c : Z) (l : list obs) : bool := existsb (fun o => Z.eqb (status_of o) c) l.
 
-(** ** C01: group "route" (cache off) *)
+(** the mapper of a server whose pipelines never change: every known backend, generation 1 *)
+Definition static_mapper (sv : server) : mapper := map (fun b => (b, 1%N)) (sv_backends sv).
+
+(** ** C01: group "route" (cache off; one mux instance serves the whole request list, the
+    MuxMapper content may change between requests) *)
 Record route_case := {
   rc_sv : server;
   rc_tabs : tabs;
   rc_reqs : list request;
+  rc_mappers : list mapper;        (* MuxMapper content at the time of each request *)
   rc_hostnames : list string;      (* Go: SplitHostPort success case of each request's host *)
   rc_accepted : bool;              (* the real validation accepted the spec *)
   rc_obs : list obs }.
 
 Definition model_route (c : route_case) : list obs :=
   let t := rc_tabs c in
-  map (fun rq => obs_of (serve_nocache (o_re t) (o_rep t) (o_ip t) (rc_sv c) rq)) (rc_reqs c).
+  map (fun x => obs_of (snd x) (serve_nocache (o_re t) (o_rep t) (o_ip t) (with_mapper (rc_sv c) (snd x)) (fst x)))
+      (combine (rc_reqs c) (rc_mappers c)).
 
 Definition spec_route (c : route_case) : list obs :=
   let t := rc_tabs c in
-  map (fun rq => obs_of (serve_spec (o_re t) (o_rep t) (o_ip t) (rc_sv c) rq)) (rc_reqs c).
+  map (fun x => obs_of (snd x) (serve_spec (o_re t) (o_rep t) (o_ip t) (with_mapper (rc_sv c) (snd x)) (fst x)))
+      (combine (rc_reqs c) (rc_mappers c)).
 
 Definition rewritten (reqs : list request) (os : list obs) : bool :=
   existsb (fun x => let '(rq, o) := x in
-                    let '(s, b, p, _) := o in Z.eqb s 200 && negb (String.eqb p (rq_path rq)))
+                    let '(s, b, p, _, _) := o in Z.eqb s 200 && negb (String.eqb p (rq_path rq)))
           (combine reqs os).
+
+Definition mapper_eqb (a b : mapper) : bool :=
+  list_eqb (fun x y => String.eqb (fst x) (fst y) && N.eqb (snd x) (snd y)) a b.
+
+Fixpoint mapper_changes (l : list mapper) : bool :=
+  match l with
+  | a :: ((b :: _) as t) => negb (mapper_eqb a b) || mapper_changes t
+  | _ => false
+  end.
 
 Definition class_obs (reqs : list request) (os : list obs) : N :=
   (1 + bN (has_status 200 os) 1 + bN (has_status 400 os) 2 + bN (has_status 405 os) 4
@@ -102,27 +119,35 @@ Definition check_route (c : route_case) : result :=
     let t := rc_tabs c in
     let ok_tabs := forallb (complete_req t (rc_sv c)) (rc_reqs c) in
     let ok_host := list_eqb String.eqb (map (fun rq => strip_port (rq_host rq)) (rc_reqs c)) (rc_hostnames c) in
-    (ok_tabs && ok_host && valid_server (rc_sv c) && list_eqb obs_eqb (model_route c) (rc_obs c),
-     list_eqb obs_eqb (spec_route c) (rc_obs c),
-     match rc_reqs c with [] => 0%N | _ => class_obs (rc_reqs c) (rc_obs c) end,
+    let ok_len := Nat.eqb (List.length (rc_reqs c)) (List.length (rc_mappers c)) in
+    (ok_tabs && ok_host && ok_len && valid_server (rc_sv c) && list_eqb obs_eqb (model_route c) (rc_obs c),
+     ok_len && list_eqb obs_eqb (spec_route c) (rc_obs c),
+     match rc_reqs c with
+     | [] => 0%N
+     | _ => (class_obs (rc_reqs c) (rc_obs c) + bN (mapper_changes (rc_mappers c)) 128)%N
+     end,
      0%N).
 
 Definition explain_route (c : route_case) :=
   (model_route c, spec_route c, map (fun rq => strip_port (rq_host rq)) (rc_reqs c),
    forallb (complete_req (rc_tabs c) (rc_sv c)) (rc_reqs c), valid_server (rc_sv c)).
 
-(** ** C12: group "cache" (twin muxes: cacheSize n and 0) *)
+(** ** C12: group "cache" (twin muxes: cacheSize n and 0; requests interleaved with reloads) *)
+Inductive cop :=
+| CReq (i : nat) (o : obs * obs * list key)   (* request pool[i]: cached mux, cache-less twin, cache keys afterwards *)
+| CReload (s : nat).                          (* both twins reloaded with spec svs[s] *)
+
 Record cache_case := {
-  cc_sv : server;
+  cc_svs : list server;                        (* svs[0] = initial spec, the others are reload targets *)
   cc_tabs : tabs;
   cc_pool : list request;
   cc_hostnames : list string;
-  cc_seq : list nat;                               (* indices into the pool *)
-  cc_accepted : bool;
-  cc_obs : list (obs * obs * list key) }.          (* cached mux, cache-less twin, cache keys after the request *)
+  cc_ops : list cop;
+  cc_accepted : bool }.
 
 Definition dummy_req : request :=
   {| rq_host := ""; rq_method := ""; rq_path := ""; rq_headers := []; rq_ip := "" |}.
+Definition dummy_sv : server := {| sv_filter := None; sv_rules := []; sv_backends := [] |}.
 
 Definition mem_key (k : key) (l : list key) : bool := existsb (key_eqb k) l.
 
@@ -134,39 +159,64 @@ Definition keepf (pinned q : quirks) (pool : list request) (dump : list key) (k 
   existsb (fun r => key_eqb (mk_key q r) k && mem_key (mk_key pinned r) dump) pool.
 
 Section Crun.
-  Variables (t : tabs) (pinned q : quirks) (sv : server) (pool : list request).
+  Variables (t : tabs) (pinned q : quirks) (svs : list server) (pool : list request).
 
-  (** per step: outcome, key set after the step (after applying the observed eviction), and
+  (** per request: observable, key set after the step (after applying the observed eviction), and
       whether a key stored by this very step is in the observed key set (a cache never drops
-      the key it has just been given; "never stored" must not pass for "stored and evicted") *)
-  Fixpoint crun (c : cache) (steps : list (request * list key)) : list (outcome * list key * bool) :=
-    match steps with
+      the key it has just been given; "never stored" must not pass for "stored and evicted").
+      A reload switches to the new spec with an EMPTY cache. *)
+  Fixpoint crun (sv : server) (c : cache) (ops : list cop) : list (obs * list key * bool) :=
+    match ops with
     | [] => []
-    | (rq, dump) :: rest =>
+    | CReload s :: rest => crun (nth s svs dummy_sv) [] rest
+    | CReq i (_, _, dump) :: rest =>
+        let rq := nth i pool dummy_req in
         let '(r, c') := search_cached (o_re t) (o_ip t) q sv c rq in
         let c'' := evict (keepf pinned q pool dump) c' in
         let k := mk_key q rq in
         let stored := negb (isSome (clookup k c)) && isSome (clookup k c') in
-        (dispatch (o_rep t) sv rq r, map fst c'', negb stored || isSome (clookup k c'')) :: crun c'' rest
+        (obs_of (static_mapper sv) (dispatch (o_rep t) sv rq r), map fst c'',
+         negb stored || isSome (clookup k c'')) :: crun sv c'' rest
+    end.
+
+  Fixpoint twin_run (sv : server) (ops : list cop) : list obs :=
+    match ops with
+    | [] => []
+    | CReload s :: rest => twin_run (nth s svs dummy_sv) rest
+    | CReq i _ :: rest =>
+        obs_of (static_mapper sv) (serve_nocache (o_re t) (o_rep t) (o_ip t) sv (nth i pool dummy_req))
+          :: twin_run sv rest
     end.
 End Crun.
-(* NB: the Section variable order of Mux.v decides the argument order; see the
-   [Check]s at the end of this file. *)
 
 Definition keyset_eqb (a b : list key) : bool :=
   forallb (fun k => mem_key k b) a && forallb (fun k => mem_key k a) b.
 
-Definition steps_of (c : cache_case) : list (request * list key) :=
-  map (fun x => (nth (fst x) (cc_pool c) dummy_req, snd (snd x))) (combine (cc_seq c) (cc_obs c)).
+Fixpoint req_obs (ops : list cop) : list (obs * obs * list key) :=
+  match ops with
+  | [] => []
+  | CReq _ o :: t => o :: req_obs t
+  | CReload _ :: t => req_obs t
+  end.
 
-Definition twin_model (c : cache_case) (steps : list (request * list key)) : list obs :=
-  let t := cc_tabs c in
-  map (fun s => obs_of (serve_nocache (o_re t) (o_rep t) (o_ip t) (cc_sv c) (fst s))) steps.
+(** the prefix of a history that contains its first [n] requests *)
+Fixpoint take_reqs (n : nat) (ops : list cop) : list cop :=
+  match n, ops with
+  | O, _ => []
+  | _, [] => []
+  | S n', CReq i o :: t => CReq i o :: take_reqs n' t
+  | S _, CReload s :: t => CReload s :: take_reqs n t
+  end.
 
-Definition cached_model (pinned q : quirks) (c : cache_case) (steps : list (request * list key)) :=
-  crun (cc_tabs c) pinned q (cc_sv c) (cc_pool c) [] steps.
+Definition sv0 (c : cache_case) : server := nth 0 (cc_svs c) dummy_sv.
 
-(** index of the first step whose cached observable differs from the twin's *)
+Definition twin_model (c : cache_case) (ops : list cop) : list obs :=
+  twin_run (cc_tabs c) (cc_svs c) (cc_pool c) (sv0 c) ops.
+
+Definition cached_model (pinned q : quirks) (c : cache_case) (ops : list cop) :=
+  crun (cc_tabs c) pinned q (cc_svs c) (cc_pool c) (sv0 c) [] ops.
+
+(** index of the first request whose cached observable differs from the twin's *)
 Fixpoint first_diff (l : list (obs * obs * list key)) : option nat :=
   match l with
   | [] => None
@@ -195,68 +245,79 @@ Definition subsets : list (list N) :=
   [[1]; [2]; [3]; [4]; [1;2]; [1;3]; [1;4]; [2;3]; [2;4]; [3;4];
    [1;2;3]; [1;2;4]; [1;3;4]; [2;3;4]; [1;2;3;4]]%N.
 
-(** the model with flag set [q] is transparent on these steps *)
-Definition transparent_on (pinned q : quirks) (c : cache_case) (steps : list (request * list key)) : bool :=
-  list_eqb obs_eqb (map (fun x => obs_of (fst (fst x))) (cached_model pinned q c steps)) (twin_model c steps).
+(** the model with flag set [q] is transparent on this history *)
+Definition transparent_on (pinned q : quirks) (c : cache_case) (ops : list cop) : bool :=
+  list_eqb obs_eqb (map (fun x => fst (fst x)) (cached_model pinned q c ops)) (twin_model c ops).
 
 Definition attribute (pinned : quirks) (c : cache_case) : N :=
-  match first_diff (cc_obs c) with
+  match first_diff (req_obs (cc_ops c)) with
   | None => 0%N
   | Some i =>
-      let steps := firstn (S i) (steps_of c) in
-      match find (fun s => forallb (flag_on pinned) s && transparent_on pinned (without pinned s) c steps) subsets with
+      let ops := take_reqs (S i) (cc_ops c) in
+      match find (fun s => forallb (flag_on pinned) s && transparent_on pinned (without pinned s) c ops) subsets with
       | Some (f :: _) => f
       | _ => 0%N
       end
   end.
 
+(** requests at which the real cache already held the request's key (a reload empties it) *)
 Definition count_hits (pinned : quirks) (c : cache_case) : nat :=
-  (* steps at which the pinned model's cache already held the request's key *)
-  let fix go (prev : list key) (l : list (request * list key)) : nat :=
+  let fix go (prev : list key) (l : list cop) : nat :=
     match l with
     | [] => O
-    | (rq, dump) :: t => (if mem_key (mk_key pinned rq) prev then 1 else 0) + go dump t
+    | CReload _ :: t => go [] t
+    | CReq i (_, _, dump) :: t =>
+        (if mem_key (mk_key pinned (nth i (cc_pool c) dummy_req)) prev then 1 else 0) + go dump t
     end in
-  go [] (steps_of c).
+  go [] (cc_ops c).
 
 Definition evicted_some (c : cache_case) : bool :=
-  let fix go (prev : list key) (l : list (obs * obs * list key)) : bool :=
+  let fix go (prev : list key) (l : list cop) : bool :=
     match l with
     | [] => false
-    | (_, _, dump) :: t => negb (forallb (fun k => mem_key k dump) prev) || go dump t
+    | CReload _ :: t => go [] t
+    | CReq _ (_, _, dump) :: t => negb (forallb (fun k => mem_key k dump) prev) || go dump t
     end in
-  go [] (cc_obs c).
+  go [] (cc_ops c).
+
+Definition has_reload (c : cache_case) : bool :=
+  existsb (fun o => match o with CReload _ => true | _ => false end) (cc_ops c).
 
 Definition check_cache (pinned : quirks) (c : cache_case) : result :=
   if negb (cc_accepted c) then
-    (match cc_obs c with [] => true | _ => false end, true, 0%N, 0%N)
+    (match req_obs (cc_ops c) with [] => true | _ => false end, true, 0%N, 0%N)
   else
     let t := cc_tabs c in
-    let steps := steps_of c in
-    let ok_tabs := forallb (complete_req t (cc_sv c)) (cc_pool c) in
+    let ops := cc_ops c in
+    let robs := req_obs ops in
+    let ok_tabs := forallb (fun sv => forallb (complete_req t sv) (cc_pool c)) (cc_svs c) in
     let ok_host := list_eqb String.eqb (map (fun rq => strip_port (rq_host rq)) (cc_pool c)) (cc_hostnames c) in
-    let ok_seq := Nat.eqb (List.length (cc_seq c)) (List.length (cc_obs c))
-                  && forallb (fun i => Nat.ltb i (List.length (cc_pool c))) (cc_seq c) in
-    let m := cached_model pinned pinned c steps in
+    let ok_seq := forallb (fun o => match o with
+                                    | CReq i _ => Nat.ltb i (List.length (cc_pool c))
+                                    | CReload s => Nat.ltb s (List.length (cc_svs c))
+                                    end) ops
+                  && Nat.ltb 0 (List.length (cc_svs c)) in
+    let m := cached_model pinned pinned c ops in
     let corr :=
-      ok_tabs && ok_host && ok_seq && valid_server (cc_sv c)
-      && list_eqb obs_eqb (map (fun x => obs_of (fst (fst x))) m) (map (fun x => fst (fst x)) (cc_obs c))
-      && list_eqb obs_eqb (twin_model c steps) (map (fun x => snd (fst x)) (cc_obs c))
-      && list_eqb keyset_eqb (map (fun x => snd (fst x)) m) (map snd (cc_obs c))
+      ok_tabs && ok_host && ok_seq && forallb valid_server (cc_svs c)
+      && list_eqb obs_eqb (map (fun x => fst (fst x)) m) (map (fun x => fst (fst x)) robs)
+      && list_eqb obs_eqb (twin_model c ops) (map (fun x => snd (fst x)) robs)
+      && list_eqb keyset_eqb (map (fun x => snd (fst x)) m) (map snd robs)
       && forallb (fun x => snd x) m in
-    let prop := forallb (fun x => obs_eqb (fst (fst x)) (snd (fst x))) (cc_obs c) in
-    let twin := map (fun x => snd (fst x)) (cc_obs c) in
+    let prop := forallb (fun x => obs_eqb (fst (fst x)) (snd (fst x))) robs in
+    let twin := map (fun x => snd (fst x)) robs in
     (corr, prop,
-     match cc_seq c with
+     match robs with
      | [] => 0%N
      | _ => (1 + bN (Nat.ltb 0 (count_hits pinned c)) 1 + bN (evicted_some c) 2 + bN (negb prop) 4
                + bN (has_status 403 twin) 8 + bN (has_status 200 twin) 16
-               + bN (has_status 404 twin || has_status 405 twin) 32 + bN (has_status 400 twin) 64)%N
+               + bN (has_status 404 twin || has_status 405 twin) 32 + bN (has_status 400 twin) 64
+               + bN (has_reload c) 128)%N
      end,
      if prop then 0%N else attribute pinned c).
 
 Definition explain_cache (pinned : quirks) (c : cache_case) :=
-  let steps := steps_of c in
-  (map (fun x => (obs_of (fst (fst x)), snd (fst x), snd x)) (cached_model pinned pinned c steps), twin_model c steps,
-   first_diff (cc_obs c), attribute pinned c,
-   forallb (complete_req (cc_tabs c) (cc_sv c)) (cc_pool c), valid_server (cc_sv c)).
+  let ops := cc_ops c in
+  (cached_model pinned pinned c ops, twin_model c ops,
+   first_diff (req_obs ops), attribute pinned c,
+   forallb (fun sv => forallb (complete_req (cc_tabs c) sv) (cc_pool c)) (cc_svs c), forallb valid_server (cc_svs c)).
